@@ -128,6 +128,9 @@ def make_sn(spec, seed=0, **kw):
     args = dict(spec.get('sn', {}))
     args.update(kw)
     sn = SuperNet(model, input_shape=shape, **args)
+    # `after`: another phase of the search entered after construction (e.g. train_net_only(): the selection is frozen but keeps its values)
+    for name in spec.get('after', []):
+        getattr(sn, name)()
     sn.eval()
     return sn, model, shape
 
